@@ -111,6 +111,15 @@ bool is_private_or_reserved_ipv6(const std::string& host) {
     if (normalized.rfind("ff", 0) == 0) {
         return true;  // Multicast
     }
+    constexpr std::string_view kMappedPrefix{"::ffff:"};
+    if (normalized.compare(0, kMappedPrefix.size(), kMappedPrefix) == 0) {
+        // IPv4-mapped address: judge the embedded IPv4 address (inet_ntop writes it dotted).
+        std::array<std::uint8_t, 4> mapped{};
+        if (parse_ipv4(normalized.substr(kMappedPrefix.size()), mapped)) {
+            return is_private_or_reserved_ipv4(mapped);
+        }
+        return true;  // hexadecimal or malformed spelling: refuse rather than guess
+    }
     return false;
 }
 
